@@ -39,7 +39,7 @@ def scenario_line(scn):
         if r["kind"] == "R":
             runs.append("R:%s:%s:%s:%s:%s:%s:%s" % (r["api"], r["mode"], "n" if r["limit"] is None else r["limit"],
                                                    "1" if r.get("fault") else "0", "n" if r.get("stop") is None else r["stop"],
-                                                   "1" if r.get("close", True) else "0", rows_str(r["rows"])))
+                                                   "1" if r.get("close", True) else "0", rows_str(r.get("model_rows", r["rows"]))))
         else:
             runs.append("W:%s:%s" % ("1" if r.get("close", True) else "0", rows_str(r["rows"])))
     return core.line("engine", scn["format"], "n" if scn.get("allowed") is None else enc(scn["allowed"]), fields or "~", names or "~",
@@ -55,12 +55,15 @@ def cid_rows(scn):
     rows = [["D", "Format", {"delimited": "Delimited", "fixed": "Fixed", "excel": "Excel", "ods": "ODS"}[scn["format"]]]]
     if scn["header"]:
         rows.append(["D", "Header", str(scn["header"])])
-    if scn.get("allowed") is not None:
+    if scn.get("allowed") is not None and not scn.get("late_allowed"):
         rows.append(["D", "Allowed characters", scn["allowed"]])
     if scn["format"] == "fixed":
         rows.append(["D", "Line delimiter", LINE_NAMES[scn.get("line", "lf")]])
     for f in scn["fields"]:
         rows.append(["F", f["name"], "", "X" if f["empty"] else "", f["length"], f["type"], f["rule"]])
+    if scn.get("allowed") is not None and scn.get("late_allowed"):
+        # a data format property may follow the fields it applies to
+        rows.append(["D", "Allowed characters", scn["allowed"]])
     for i, c in enumerate(scn["checks"]):
         if c["kind"] == "U":
             rows.append(["C", "c%d" % i, "IsUnique", c["rule"]])
@@ -92,7 +95,15 @@ def container_text(scn, rows, fault):
             text += '"unterminated'
         return text
     if scn["format"] == "fixed":
-        text = "".join("".join(r) + LINE_TEXT[scn.get("line", "lf")] for r in rows)
+        sep = LINE_TEXT[scn.get("line", "lf")]
+        if isinstance(fault, dict) and fault["kind"] == "nodelim":
+            # the last record is followed by one stray character instead of its line delimiter
+            return "".join("".join(r) + sep for r in rows[:-1]) + "".join(rows[-1]) + "x"
+        if isinstance(fault, dict) and fault["kind"] == "wrongdelim":
+            # record `at` is followed by other characters where its line delimiter should be
+            at = fault["at"]
+            return "".join("".join(r) + sep for r in rows[:at]) + "".join(rows[at]) + "x" * len(sep) + "".join("".join(r) + sep for r in rows[at + 1:])
+        text = "".join("".join(r) + sep for r in rows)
         if fault:
             text += "x"  # an incomplete record
         return text
@@ -235,8 +246,11 @@ def _impl_read(scn, cid, run, source):
         if run.get("pre"):
             # the same Reader object was already used for a pass that was abandoned after `pre` rows
             first_pass = reader.rows()
-            for _ in range(run["pre"]):
-                next(first_pass, None)
+            try:
+                for _ in range(run["pre"]):
+                    next(first_pass, None)
+            except Exception:  # noqa
+                pass   # whatever stops the first pass is reported by the pass that is compared
             del first_pass
             source.seek(0)
             del plugin_types.CALL_LOG[:]
@@ -479,6 +493,8 @@ def gen_row(rnd, fields, fmt, p_bad=0.2, p_ragged=0.1):
             c = rnd.choice(f["good"])
         if fmt == "fixed":
             c = pad(c, f["width"])
+        elif rnd.random() < 0.04:
+            c = rnd.choice([" ", "  ", "\t"])   # white space only: not an empty cell outside fixed-width data
         row.append(c)
     if fmt != "fixed" and rnd.random() < p_ragged:
         if rnd.random() < 0.5 and row:
